@@ -155,7 +155,11 @@ func (c *lockCore) release(r *hub.Run, read bool) {
 		if read {
 			op = "runlock"
 		}
-		r.LogLock(hub.LockEvent{Lock: s.id, Who: r.WhoAmI(), Op: op})
+		who := r.WhoAmI()
+		r.LogLock(hub.LockEvent{Lock: s.id, Who: who, Op: op})
+		if r.YieldAfterUnlock && who != "" {
+			r.Park(&hub.Parked{Kind: "after-" + op, Obj: s.id, Who: who})
+		}
 	}
 }
 
